@@ -945,6 +945,103 @@ def mutate_tokens_mps(rng, text):
     return "".join(tk)
 
 
+# ----------------------------------------------------------------------------- hand-written MPS probes (C10 tie, C11 reasons)
+
+_MPS_BASE = dict(head="NAME t\n", rows="ROWS\n N obj\n L r1\n G r2\n", cols="COLUMNS\n x obj 1 r1 1\n y obj 2 r2 1\n", rhs="RHS\n RHS r1 4 r2 1\n",
+                 rng="", bnd="BOUNDS\n UP BND x 3\n", end="ENDATA\n")
+
+
+def _mps(**kw):
+    d = dict(_MPS_BASE)
+    d.update(kw)
+    return d["head"] + d["rows"] + d["cols"] + d["rhs"] + d["rng"] + d["bnd"] + d["end"]
+
+
+def mps_reason_files():
+    """one MPS file per rejection reason of the reader model IO/MpsRead.mreason: {reason: text}"""
+    sos = lambda a, b: "COLUMNS\n S1 s1 'MARKER' 'SOSORG'\n" + a + " s1e 'MARKER' 'SOSEND'\n" + b
+    return {
+        "BadKey": _mps(rows="ROWS\n N obj\n L r1\n G r2\nFOO\n"),
+        "TwoSections": _mps(cols="COLUMNS\n x obj 1 r1 1\n y obj 2 r2 1\nROWS\n L r3\n"),
+        "SectionOrder": "NAME t\nCOLUMNS\n x obj 1\nROWS\n N obj\nENDATA\n",
+        "MissingObjLine": "NAME t\nOBJSENSE\n",
+        "BadObjRecord": _mps(head="NAME t\nOBJSENSE\n"),
+        "BadObjsense": _mps(head="NAME t\nOBJSENSE\n MAXI\n"),
+        "BadRefrow": _mps(head="NAME t\nREFROW\n"),
+        "NoSection": _mps(head="NAME t\n x y\n"),
+        "RowSense": _mps(rows="ROWS\n N obj\n X r1\n G r2\n"),
+        "RowRepeated": _mps(rows="ROWS\n N obj\n L r1\n G r2\n E r1\n"),
+        "RowMissingName": _mps(rows="ROWS\n N obj\n L r1\n G r2\n L\n"),
+        "MarkerBad": _mps(cols="COLUMNS\n M1 foo 'MARKER' 'INTORG'\n x obj 1 r1 1\n y obj 2 r2 1\n"),
+        "MarkerMissing": _mps(cols="COLUMNS\n M1 'MARKER'\n x obj 1 r1 1\n y obj 2 r2 1\n"),
+        "MarkerField": _mps(cols="COLUMNS\n M1 'MARKER' 'FOO'\n x obj 1 r1 1\n y obj 2 r2 1\n"),
+        "SosOther": _mps(cols=sos(" x obj 1 r1 1\n", " S2 s2 'MARKER' 'SOSORG'\n x r2 1\n y obj 2 r2 1\n s2e 'MARKER' 'SOSEND'\n")),
+        "ColMissingFields": _mps(cols="COLUMNS\n x obj 1 r1 1\n y\n"),
+        "ColNotRow": _mps(cols="COLUMNS\n x obj 1 r1 1\n y nosuch 2 r2 1\n"),
+        "ColBadCoef": _mps(cols="COLUMNS\n x obj 1 r1 1\n y obj abc\n"),
+        "RhsMissingRow": _mps(rhs="RHS\n RHS\n"),
+        "RhsNotRow": _mps(rhs="RHS\n RHS nosuch 1\n"),
+        "RhsBadCoef": _mps(rhs="RHS\n RHS r1 abc\n"),
+        "RhsTwice": _mps(rhs="RHS\n RHS r1 4\n RHS r1 5\n"),
+        "RngMissingRow": _mps(rng="RANGES\n RNG\n"),
+        "RngNotRow": _mps(rng="RANGES\n RNG nosuch 1\n"),
+        "RngBadCoef": _mps(rng="RANGES\n RNG r1 e5\n"),
+        "BndType": _mps(bnd="BOUNDS\n XX BND x 3\n"),
+        "BndNoIdent": _mps(bnd="BOUNDS\n UP\n"),
+        "BndMissingCol": _mps(bnd="BOUNDS\n UP BND\n"),
+        "BndNotCol": _mps(bnd="BOUNDS\n UP BND nosuch 3\n"),
+        "BndBadValue": _mps(bnd="BOUNDS\n UP BND x infx\n"),
+        "ObjNameUnknown": _mps(head="NAME t\nOBJNAME\n nosuch\n"),
+        "NoNRow": _mps(rows="ROWS\n L r1\n G r2\n", cols="COLUMNS\n x r1 1\n y r2 1\n"),
+        "RefrowUnknown": _mps(head="NAME t\nREFROW\n nosuch\n"),
+        "NoCols": _mps(cols="COLUMNS\n", bnd=""),
+        "SosInt": _mps(cols=sos(" x obj 1 r1 1\n y obj 2 r2 1\n", ""), bnd="BOUNDS\n BV BND x\n"),
+        "SosWeight": _mps(head="NAME t\nREFROW\n r1\n", cols=sos(" x obj 1 r1 1\n y obj 2 r2 1 r1 1\n", "")),
+        "BoundsCross": _mps(bnd="BOUNDS\n LO BND x 5\n UP BND x 3\n"),
+        "NoUsedCols": "NAME t\nROWS\n N obj\n N free\n L r1\nCOLUMNS\n x free 1\nENDATA\n",
+        "NoRows": "NAME t\nROWS\n N obj\nCOLUMNS\n x obj 1\nENDATA\n",
+        "RangeOnN": _mps(head="NAME t\nOBJNAME\n r1\n", rng="RANGES\n RNG r1 2\n"),
+    }
+
+
+def mps_accept_probes():
+    """valid MPS files aimed at the quirks of the reader (all accepted by the code as it is): [(name, text)]"""
+    return [
+        ("base", _mps()),
+        ("dollar-row-in-field-2", "NAME t\nROWS\n N obj\n L $r1\n G r2\nCOLUMNS\n x $r1 1 obj 1\n y obj 2 r2 1\nRHS\n RHS $r1 4\n $r1 7\nENDATA\n"),
+        ("dollar-comments", _mps(cols="COLUMNS\n x obj 1 $ c1\n x r1 1 $c2 r2 5\n y obj 2 r2 1$\n", bnd="BOUNDS\n UP BND x 3 $ c\n MI BND y $c\n")),
+        ("star-comment-and-blank-lines", "* c\nNAME t\n\n*ROWS\n" + _mps()[7:]),
+        ("e-negative-range", _mps(rows="ROWS\n N obj\n E r1\n E r2\n", rng="RANGES\n RNG r1 -3 r2 2\n")),
+        ("l-g-ranges-both-signs", _mps(rng="RANGES\n RNG r1 -3 r2 -2\n")),
+        ("range-on-n-row-ignored", _mps(rng="RANGES\n RNG obj 3 r1 1\n")),
+        ("second-range-ignored", _mps(rng="RANGES\n RNG r1 1\n RNG r1 5\n")),
+        ("second-rhs-set-skipped", _mps(rhs="RHS\n RHS r1 4\n OTHER r1 9 r2 7\n RHS r2 1\n")),
+        ("blank-set-names", _mps(rhs="RHS\n    r1 4 r2 1\n", rng="RANGES\n  r2 3\n", bnd="BOUNDS\n UP x 3\n LO y -1\n")),
+        ("objective-rhs-ignored", _mps(rhs="RHS\n RHS obj -5 r1 4\n")),
+        ("bound-types", _mps(bnd="BOUNDS\n BV BND x\n LI BND y -2\n UI BND y 7\n")),
+        ("bound-inf-spellings", _mps(bnd="BOUNDS\n LO BND x -inf\n UP BND x +INFINITY\n UP BND y Inf$c\n LO BND y -1e1\n")),
+        ("fx-fr-mi-pl", _mps(bnd="BOUNDS\n FX BND x 2.5\n FR BND y\n MI BND y\n PL BND y\n")),
+        ("previous-bound-kept", _mps(bnd="BOUNDS\n UP BND x 3\n UP BND x 9\n FX BND x 1\n")),
+        ("negative-upper", _mps(bnd="BOUNDS\n UP BND x -3\n")),
+        ("int-markers-and-second-mention", _mps(cols="COLUMNS\n M1 'MARKER' 'INTORG'\n x obj 1\n M2 'MARKER' 'INTEND'\n y obj 2 r2 1\n M3 'MARKER' 'INTORG'\n y r1 1\n x r1 1\n M4 'MARKER' 'INTEND'\n")),
+        ("marker-repeats-mode", _mps(cols="COLUMNS\n M1 'MARKER' 'INTEND'\n x obj 1 r1 1\n M2 'MARKER' 'INTORG'\n M3 'MARKER' 'INTORG'\n y obj 2 r2 1\n")),
+        ("sos-sets", _mps(cols="COLUMNS\n S1 s1 'MARKER' 'SOSORG'\n x obj 1 r1 1\n s1e 'MARKER' 'SOSEND'\n S2 s2 'MARKER' 'SOSORG'\n y obj 2 r2 1\n y r1 3\n s2e 'MARKER' 'SOSEND'\n")),
+        ("refrow-with-sos", _mps(head="NAME t\nREFROW\n r1\n", cols="COLUMNS\n S1 s1 'MARKER' 'SOSORG'\n x obj 1 r1 1\n y obj 2 r2 1 r1 3\n s1e 'MARKER' 'SOSEND'\n")),
+        ("objname-objsense", _mps(head="NAME t\nOBJSENSE\n Maximize\nOBJNAME\n r2\n")),
+        ("repeated-and-zero-entries", _mps(cols="COLUMNS\n x obj 1 r1 1\n x r1 2 obj 0\n y obj 2 r2 1\n y r2 -1 r1 0\n")),
+        ("column-in-unused-n-row-only", _mps(rows="ROWS\n N obj\n N free\n L r1\n G r2\n", cols="COLUMNS\n x obj 1 r1 1\n y obj 2 r2 1\n z free 4\n")),
+        ("number-prefix-then-name", _mps(cols="COLUMNS\n x obj 1 r1 1r2 5\n y obj 2 r2 1\n")),
+        ("tabs-cr-ff", "NAME\tt\r\nROWS\r\n\tN\tobj\r\n \fL r1\r\n G\tr2\nCOLUMNS\n\tx\tobj\t1\tr1\t1\r\n y obj 2 r2 1\nRHS\n RHS r1 4\nENDATA\n"),
+        ("vertical-tab-in-line", "NAME t\nROWS\n N obj\n L r1\nCOLUMNS\n x obj 1 r1 1\n \x0b\n x\x0br1 2\nENDATA\n"),
+        ("no-final-newline-no-endata", _mps(end="")[:-1]),
+        ("text-after-endata", _mps() + "garbage here\n ROWS\n"),
+        ("key-line-with-extra-fields", _mps(rows="ROWS extra stuff\n N obj\n L r1\n G r2\n")),
+        ("quote-names", _mps(rows="ROWS\n N obj\n L r'1\n G r2\n", cols="COLUMNS\n x' obj 1 r'1 1\n y obj 2 r2 1\n", rhs="RHS\n RHS r'1 4\n", bnd="BOUNDS\n UP BND x' 3\n")),
+        ("setname-is-a-row-but-no-number-follows", _mps(rows="ROWS\n N obj\n L RHS\n G r2\n", cols="COLUMNS\n x obj 1 RHS 1\n y obj 2 r2 1\n", rhs="RHS\n RHS RHS 4\n RHS r2 1\n")),
+        ("setname-clash-blank-heuristic", _mps(rows="ROWS\n N obj\n L RHS\n G 1\n", cols="COLUMNS\n x obj 1 RHS 1\n y obj 2 1 1\n", rhs="RHS\n RHS RHS 4\n RHS 1 5\n")),
+    ]
+
+
 def mutate_bytes(rng, data):
     """byte-level mutation of file content (bytes)"""
     b = bytearray(data)
